@@ -8,10 +8,30 @@ package message
 // conditions and also run by replay tests). Nothing here is compiled into a
 // normal build.
 
-//@ property C04 roots readLPBytes, (*header).decode, (*PubackMessage).Decode, (*ConnackMessage).Decode, (*DisconnectMessage).Decode, (*SubackMessage).Decode
-//@ property C03 roots (*header).encode, (*header).msglen, writeLPBytes, (*header).SetRemainingLength, (*header).PacketID, (*header).SetPacketID, (*header).SetType, (*PubackMessage).Len, (*PubackMessage).Encode, (*PubackMessage).Decode, (*PubackMessage).msglen, (*ConnackMessage).Len, (*ConnackMessage).Encode, (*ConnackMessage).Decode, (*DisconnectMessage).Decode, (*SubackMessage).Decode, (*DisconnectMessage).Encode, (*header).Len, (*SubackMessage).Len, (*SubackMessage).Encode, (*SubackMessage).Decode, (*SubackMessage).AddReturnCodes, (*SubackMessage).AddReturnCode
+//@ property C04 roots readLPBytes, (*header).decode, (*PubackMessage).Decode, (*ConnackMessage).Decode, (*DisconnectMessage).Decode, (*SubackMessage).Decode, (*PublishMessage).Decode
+//@ property C03 roots (*header).encode, (*header).msglen, writeLPBytes, (*header).SetRemainingLength, (*header).PacketID, (*header).SetPacketID, (*header).SetType, (*PubackMessage).Len, (*PubackMessage).Encode, (*PubackMessage).Decode, (*PubackMessage).msglen, (*ConnackMessage).Len, (*ConnackMessage).Encode, (*ConnackMessage).Decode, (*DisconnectMessage).Decode, (*SubackMessage).Decode, (*DisconnectMessage).Encode, (*header).Len, (*SubackMessage).Len, (*SubackMessage).Encode, (*SubackMessage).Decode, (*SubackMessage).AddReturnCodes, (*SubackMessage).AddReturnCode, (*PublishMessage).Len, (*PublishMessage).Encode, (*PublishMessage).Decode, (*PublishMessage).QoS, (*PublishMessage).SetQoS, (*PublishMessage).Retain, (*PublishMessage).SetRetain, (*PublishMessage).Dup, (*PublishMessage).SetDup, (*PublishMessage).SetTopic, (*PublishMessage).SetPayload, (*PublishMessage).Topic, (*PublishMessage).Payload, (*PublishMessage).msglen
 
 // ---------------------------------------------------------------- spec functions
+
+// forall / exists / implies are spec builtins; these executable versions let the
+// vspec functions below (and replay tests) run as ordinary Go.
+func forall(lo, hi int, f func(i int) bool) bool {
+	for i := lo; i < hi; i++ {
+		if !f(i) {
+			return false
+		}
+	}
+	return true
+}
+
+func exists(lo, hi int, f func(i int) bool) bool {
+	for i := lo; i < hi; i++ {
+		if f(i) {
+			return true
+		}
+	}
+	return false
+}
 
 func vspecBE16(b []byte, i int) int { return int(b[i])*256 + int(b[i+1]) }
 
@@ -508,3 +528,144 @@ func vspecRetCodeOK(c byte) bool { return c == 0 || c == 1 || c == 2 || c == 128
 //@   ensures[C03:accept] old(m.dirty) && len(dst) >= 5+2+len(m.returnCodes) && 2+len(m.returnCodes) <= 268435455 && old(m.mtypeflags[0]) >= 16 && old(m.mtypeflags[0]) < 240
 //@        && forall(0, len(m.returnCodes), func(i int) bool { return vspecRetCodeOK(m.returnCodes[i]) }) ==> err == nil
 //@   modifies elems(dst, 0, n), m.remlen, m.dirty
+
+// ---------------------------------------------------------------- PUBLISH (MQTT 3.3)
+
+func vspecQoSOf(flags byte) byte { return (flags >> 1) & 3 }
+
+// body length of a PUBLISH with these fields
+func vspecPublishBody(tl int, pl int, qos byte) int {
+	if qos != 0 {
+		return 2 + tl + 2 + pl
+	}
+	return 2 + tl + pl
+}
+
+func vspecPublishLen(m *PublishMessage) int {
+	if !m.dirty {
+		return len(m.dbuf)
+	}
+	return 1 + vspecVarintLen(vspecPublishBody(len(m.topic), len(m.payload), vspecQoSOf(m.mtypeflags[0]))) + vspecPublishBody(len(m.topic), len(m.payload), vspecQoSOf(m.mtypeflags[0]))
+}
+
+func vspecNoWild(b []byte, lo int, hi int) bool {
+	return forall(lo, hi, func(i int) bool { return b[i] != '#' && b[i] != '+' })
+}
+
+// vspecPublishOK: src starts with a well-formed PUBLISH packet (MQTT 3.3).
+func vspecPublishOK(src []byte) bool {
+	return vspecHdrOK(src, PUBLISH) && vspecLPOK(src, vspecH(src), vspecH(src)+vspecVarintVal(src, 1)) &&
+		vspecBE16(src, vspecH(src)) > 0 && vspecNoWild(src, vspecH(src)+2, vspecH(src)+2+vspecBE16(src, vspecH(src))) &&
+		(vspecQoSOf(src[0]) == 0 || vspecH(src)+2+vspecBE16(src, vspecH(src))+2 <= vspecH(src)+vspecVarintVal(src, 1))
+}
+
+//@ func (*PublishMessage).QoS
+//@   pure
+//@   requires len(m.mtypeflags) >= 1
+//@   ensures result == vspecQoSOf(m.mtypeflags[0])
+
+//@ func (*PublishMessage).Retain
+//@   pure
+//@   requires len(m.mtypeflags) >= 1
+//@   ensures result == (m.mtypeflags[0]%2 == 1)
+
+//@ func (*PublishMessage).Dup
+//@   pure
+//@   requires len(m.mtypeflags) >= 1
+//@   ensures result == ((m.mtypeflags[0]>>3)%2 == 1)
+
+//@ func (*PublishMessage).SetRetain
+//@   requires len(m.mtypeflags) >= 1
+//@   ensures m.mtypeflags[0] == old(m.mtypeflags[0]) - old(m.mtypeflags[0])%2 + vspecB2I(v)
+//@   modifies elems(m.mtypeflags, 0, 1)
+
+//@ func (*PublishMessage).SetDup
+//@   requires len(m.mtypeflags) >= 1
+//@   ensures m.mtypeflags[0] == old(m.mtypeflags[0]) - ((old(m.mtypeflags[0])>>3)%2)*8 + vspecB2I(v)*8
+//@   modifies elems(m.mtypeflags, 0, 1)
+
+//@ func (*PublishMessage).SetQoS
+//@   results err
+//@   requires len(m.mtypeflags) >= 1
+//@   ensures v > 2 ==> err != nil && m.mtypeflags[0] == old(m.mtypeflags[0]) && m.dirty == old(m.dirty)
+//@   ensures v <= 2 ==> err == nil && m.mtypeflags[0] == old(m.mtypeflags[0]) - old(vspecQoSOf(m.mtypeflags[0]))*2 + v*2
+//@   ensures v <= 2 ==> m.dirty == (old(m.dirty) || ((old(vspecQoSOf(m.mtypeflags[0])) > 0) != (v > 0)))
+//@   modifies elems(m.mtypeflags, 0, 1), m.dirty
+
+//@ func (*PublishMessage).Topic
+//@   pure
+//@   ensures sameslice(result, m.topic) && cap(result) == cap(m.topic)
+
+//@ func (*PublishMessage).Payload
+//@   pure
+//@   ensures sameslice(result, m.payload) && cap(result) == cap(m.payload)
+
+//@ func (*PublishMessage).SetTopic
+//@   results err
+//@   ensures (len(v) > 0 && vspecNoWild(v, 0, len(v))) ==> err == nil && sameslice(m.topic, v) && m.dirty
+//@   ensures !(len(v) > 0 && vspecNoWild(v, 0, len(v))) ==> err != nil && sameslice(m.topic, old(m.topic)) && m.dirty == old(m.dirty)
+//@   modifies m.topic, m.dirty
+
+//@ func (*PublishMessage).SetPayload
+//@   ensures sameslice(m.payload, v) && m.dirty
+//@   modifies m.payload, m.dirty
+
+//@ func (*PublishMessage).msglen
+//@   pure
+//@   requires len(m.mtypeflags) >= 1
+//@   ensures result == vspecPublishBody(len(m.topic), len(m.payload), vspecQoSOf(m.mtypeflags[0]))
+
+//@ func (*PublishMessage).Len
+//@   requires len(m.mtypeflags) >= 1
+//@   requires len(m.topic) <= 65535 && len(m.payload) <= 1000000000
+//@   ensures[C03:len] vspecPublishBody(len(m.topic), len(m.payload), vspecQoSOf(m.mtypeflags[0])) <= 268435455 ==> result == old(vspecPublishLen(m))
+//@   ensures !old(m.dirty) ==> m.remlen == old(m.remlen) && !m.dirty
+//@   ensures old(m.dirty) && vspecPublishBody(len(m.topic), len(m.payload), vspecQoSOf(m.mtypeflags[0])) <= 268435455 ==> int(m.remlen) == vspecPublishBody(len(m.topic), len(m.payload), vspecQoSOf(m.mtypeflags[0])) && m.dirty
+//@   modifies m.remlen, m.dirty
+
+//@ func (*PublishMessage).Decode
+//@   results n, err
+//@   strictslice
+//@   requires len(m.mtypeflags) == 1
+//@   ensures[C04:count] 0 <= n && n <= len(src)
+//@   ensures[C04:inside] err == nil ==> within(m.topic, src, n) && within(m.payload, src, n) && within(m.mtypeflags, src, n) && within(m.dbuf, src, n) && (vspecQoSOf(src[0]) != 0 ==> within(m.packetID, src, n))
+//@   ensures[C04:accept] vspecPublishOK(src) && old(Type(m.mtypeflags[0]>>4)) == PUBLISH ==> err == nil
+//@   ensures[C03:fields] err == nil ==> n == vspecH(src)+vspecVarintVal(src, 1) && int(m.remlen) == vspecVarintVal(src, 1) && sameslice(m.mtypeflags, src[0:1])
+//@        && sameslice(m.topic, src[vspecH(src)+2:vspecH(src)+2+vspecBE16(src, vspecH(src))]) && len(m.topic) > 0 && vspecNoWild(m.topic, 0, len(m.topic))
+//@        && (vspecQoSOf(src[0]) == 0 ==> sameslice(m.payload, src[vspecH(src)+2+len(m.topic):n]))
+//@        && (vspecQoSOf(src[0]) != 0 ==> sameslice(m.packetID, src[vspecH(src)+2+len(m.topic):vspecH(src)+2+len(m.topic)+2]) && sameslice(m.payload, src[vspecH(src)+2+len(m.topic)+2:n]))
+//@   ensures[C03:clean] err == nil ==> !m.dirty && sameslice(m.dbuf, src[:n])
+//@   modifies m.remlen, m.mtypeflags, m.dbuf, m.dirty, m.packetID, m.topic, m.payload
+
+//@ func nextPacketID
+//@   loop 1 invariant true
+//@   ensures[C03,C12:pid] result != 0
+//@   modifies gPacketID
+
+//@ extern sync/atomic.AddUint64
+//@   flag args addr, delta
+//@   pure
+//@   ensures result == (old(*addr)+delta)%18446744073709551616 && *addr == result
+//@   modifies *addr
+
+//@ func (*PublishMessage).Encode
+//@   results n, err
+//@   requires len(m.mtypeflags) == 1
+//@   requires len(m.packetID) == 0 || len(m.packetID) == 2
+//@   requires arr(dst) != arr(m.packetID) || len(m.packetID) != 2
+//@   requires arr(dst) != arr(m.topic) && arr(dst) != arr(m.payload) && arr(dst) != arr(m.mtypeflags)
+//@   requires disjoint(m.packetID, m.topic) && disjoint(m.packetID, m.payload) && disjoint(m.packetID, m.mtypeflags)
+//@   requires len(m.topic) <= 65535 && len(m.payload) <= 1000000000
+//@   ensures[C03:len] err == nil ==> n == old(vspecPublishLen(m)) && n <= len(dst)
+//@   ensures[C03:clean] err == nil && !old(m.dirty) ==> eqold(dst[:n], m.dbuf)
+//@   ensures[C03:wire] err == nil && old(m.dirty) ==> dst[0] == m.mtypeflags[0] && int(m.remlen) == vspecPublishBody(len(m.topic), len(m.payload), vspecQoSOf(m.mtypeflags[0])) && n == 1+vspecVarintLen(int(m.remlen))+int(m.remlen)
+//@        && forall(0, vspecVarintLen(int(m.remlen)), func(k int) bool { return int(dst[1+k]) == vspecVarintByte(int(m.remlen), k) })
+//@        && vspecBE16(dst, 1+vspecVarintLen(int(m.remlen))) == len(m.topic)
+//@        && eqbytes(dst[1+vspecVarintLen(int(m.remlen))+2:1+vspecVarintLen(int(m.remlen))+2+len(m.topic)], m.topic)
+//@        && eqbytes(dst[n-len(m.payload):n], m.payload)
+//@        && (vspecQoSOf(m.mtypeflags[0]) != 0 ==> len(m.packetID) == 2 && eqbytes(dst[n-len(m.payload)-2:n-len(m.payload)], m.packetID))
+//@   ensures[C03,C12:pid] err == nil && old(m.dirty) && vspecQoSOf(m.mtypeflags[0]) != 0 ==> vspecPacketID(m.packetID) != 0
+//@   ensures[C03:keepid] old(vspecPacketID(m.packetID)) != 0 ==> vspecPacketID(m.packetID) == old(vspecPacketID(m.packetID))
+//@   ensures[C03:accept] old(m.dirty) && len(m.topic) > 0 && vspecPublishBody(len(m.topic), len(m.payload), vspecQoSOf(m.mtypeflags[0])) <= 268435455 && len(dst) >= 5+vspecPublishBody(len(m.topic), len(m.payload), vspecQoSOf(m.mtypeflags[0])) && m.mtypeflags[0] >= 16 && m.mtypeflags[0] < 240 ==> err == nil
+//@   ensures[C03:unchanged] unchanged(m.topic) && unchanged(m.payload) && sameslice(m.topic, old(m.topic)) && sameslice(m.payload, old(m.payload)) && m.mtypeflags[0] == old(m.mtypeflags[0])
+//@   modifies elems(dst, 0, n), m.remlen, m.dirty, m.packetID, elems(m.packetID), gPacketID
